@@ -684,4 +684,352 @@ theorem applyOp_false (b : Mem) (op : MutOp) (h : (applyOp b op).2 = false) : (a
     simp only [applyOp, decide_eq_false_iff_not, Nat.not_lt, Nat.le_zero_eq] at *
     exact removeBatchLocked_zero b ks h
 
+/-! ### the persistence invariant (DESIGN Appendix A.5) -/
+
+/-- start of a process: nothing snapshotted, nothing persisted, `saveMu` free.
+Memory and the main file are arbitrary. -/
+def Init (s : PState) : Prop :=
+  s.version = 0 ∧ s.lastPersisted = 0 ∧ s.pending = [] ∧ s.inflight = none ∧ s.taken = [] ∧ s.failed = []
+
+/-- the invariant of Appendix A.5 (`main0` = the main file the process started with). -/
+structure Inv (main0 : Option (List Str)) (s : PState) : Prop where
+  lp_le : s.lastPersisted ≤ s.version
+  taken_le : ∀ x ∈ s.taken, 1 ≤ x.version ∧ x.version ≤ s.version
+  top : s.version > 0 → ({ version := s.version, exact := s.mem.m, wild := s.mem.wild } : Snap) ∈ s.taken
+  top_unique : ∀ x ∈ s.taken, x.version = s.version → x.exact = s.mem.m ∧ x.wild = s.mem.wild
+  pending_sub : ∀ x ∈ s.pending, x ∈ s.taken
+  inflight_ok : ∀ f, s.inflight = some f → f.snap ∈ s.taken ∧ s.lastPersisted < f.snap.version ∧
+      f.written = (render f.snap).take f.written.length ∧
+      (f.stage ≠ .writing → f.written = render f.snap) ∧
+      (f.stage = .renamed → s.main = some (render f.snap))
+  file : (∀ f, s.inflight = some f → f.stage ≠ .renamed) →
+      (s.lastPersisted = 0 ∧ s.main = main0) ∨
+      (∃ x ∈ s.taken, x.version = s.lastPersisted ∧ s.main = some (render x))
+  accounted : ∀ x ∈ s.taken, x ∈ s.pending ∨ (∃ f, s.inflight = some f ∧ f.snap = x) ∨
+      x.version ≤ s.lastPersisted ∨ x.version ∈ s.failed
+
+theorem inv_init (s : PState) (h : Init s) : Inv s.main s := by
+  obtain ⟨h1, h2, h3, h4, h5, h6⟩ := h
+  refine ⟨by omega, by simp [h5], by omega, by simp [h5], by simp [h3], by simp [h4], ?_, by simp [h5]⟩
+  intro _; exact Or.inl ⟨h2, rfl⟩
+
+theorem mem_of_mem_eraseIdx {α} (l : List α) (i : Nat) (x : α) (h : x ∈ l.eraseIdx i) : x ∈ l :=
+  List.mem_of_mem_eraseIdx h
+
+theorem mem_eraseIdx_or {α} (l : List α) (i : Nat) (a x : α) (hi : l[i]? = some a) (h : x ∈ l) :
+    x ∈ l.eraseIdx i ∨ x = a := by
+  induction l generalizing i with
+  | nil => simp at h
+  | cons b t ih =>
+    cases i with
+    | zero =>
+      simp only [List.getElem?_cons_zero, Option.some.injEq] at hi
+      simp only [List.eraseIdx_cons_zero]
+      rcases List.mem_cons.mp h with h | h
+      · right; rw [h, hi]
+      · left; exact h
+    | succ j =>
+      simp only [List.getElem?_cons_succ] at hi
+      simp only [List.eraseIdx_cons_succ, List.mem_cons]
+      rcases List.mem_cons.mp h with h | h
+      · left; left; exact h
+      · rcases ih j hi h with h' | h'
+        · left; right; exact h'
+        · right; exact h'
+
+
+theorem inv_mutate (m0 : Option (List Str)) (s : PState) (op : MutOp) (h : Inv m0 s) :
+    Inv m0 (step s (.mutate op)) := by
+  unfold step
+  simp only
+  by_cases hc : (applyOp s.mem op).2 = true
+  · simp only [hc, if_true]
+    refine ⟨?_, ?_, ?_, ?_, ?_, ?_, ?_, ?_⟩
+    · have := h.lp_le; simp only; omega
+    · intro x hx
+      simp only [List.mem_cons] at hx
+      rcases hx with rfl | hx
+      · simp
+      · have := h.taken_le x hx; simp only; omega
+    · intro _; simp
+    · intro x hx hv
+      simp only [List.mem_cons] at hx
+      rcases hx with rfl | hx
+      · simp
+      · have := h.taken_le x hx; simp only at hv; omega
+    · intro x hx
+      simp only [List.mem_append, List.mem_singleton] at hx
+      rcases hx with hx | rfl
+      · exact List.mem_cons_of_mem _ (h.pending_sub x hx)
+      · simp
+    · intro f hf
+      obtain ⟨a, b, c, d, e⟩ := h.inflight_ok f hf
+      exact ⟨List.mem_cons_of_mem _ a, b, c, d, e⟩
+    · intro hf
+      rcases h.file hf with h' | ⟨x, hx, h'⟩
+      · exact Or.inl h'
+      · exact Or.inr ⟨x, List.mem_cons_of_mem _ hx, h'⟩
+    · intro x hx
+      simp only [List.mem_cons] at hx
+      rcases hx with rfl | hx
+      · left; simp
+      · rcases h.accounted x hx with h' | h' | h' | h'
+        · left; simp [h']
+        · right; left; exact h'
+        · right; right; left; exact h'
+        · right; right; right; exact h'
+  · have hc' : (applyOp s.mem op).2 = false := by simpa using hc
+    have hm := applyOp_false s.mem op hc'
+    simp only [hc', Bool.false_eq_true, if_false, hm]
+    exact ⟨h.lp_le, h.taken_le, h.top, h.top_unique, h.pending_sub, h.inflight_ok, h.file, h.accounted⟩
+
+theorem inv_begin (m0 : Option (List Str)) (s : PState) (i : Nat) (ok : Bool) (h : Inv m0 s) :
+    Inv m0 (step s (.begin i ok)) := by
+  unfold step
+  simp only
+  cases hin : s.inflight with
+  | some f => simp only; exact h
+  | none =>
+    simp only
+    cases hp : s.pending[i]? with
+    | none => simp only; exact h
+    | some snap =>
+      simp only
+      have hsnap_pending : snap ∈ s.pending := List.mem_of_getElem? hp
+      have hsnap := h.pending_sub snap hsnap_pending
+      have hver := h.taken_le snap hsnap
+      have hfile : (s.lastPersisted = 0 ∧ s.main = m0) ∨
+          (∃ x ∈ s.taken, x.version = s.lastPersisted ∧ s.main = some (render x)) :=
+        h.file (by intro f hf; rw [hin] at hf; cases hf)
+      have hacc : ∀ x ∈ s.taken, x ∈ s.pending.eraseIdx i ∨ x = snap ∨ x.version ≤ s.lastPersisted ∨ x.version ∈ s.failed := by
+        intro x hx
+        rcases h.accounted x hx with h' | ⟨f, hf, _⟩ | h' | h'
+        · rcases mem_eraseIdx_or s.pending i snap x hp h' with h'' | h''
+          · exact Or.inl h''
+          · exact Or.inr (Or.inl h'')
+        · rw [hin] at hf; cases hf
+        · exact Or.inr (Or.inr (Or.inl h'))
+        · exact Or.inr (Or.inr (Or.inr h'))
+      have hpsub : ∀ x ∈ s.pending.eraseIdx i, x ∈ s.taken :=
+        fun x hx => h.pending_sub x (List.mem_of_mem_eraseIdx hx)
+      by_cases hstale : snap.version ≠ 0 ∧ snap.version ≤ s.lastPersisted
+      · rw [if_pos hstale]
+        refine ⟨h.lp_le, h.taken_le, h.top, h.top_unique, hpsub, ?_, ?_, ?_⟩
+        · intro f hf; simp only [hin] at hf; cases hf
+        · intro _; exact hfile
+        · intro x hx
+          rcases hacc x hx with h' | h' | h' | h'
+          · exact Or.inl h'
+          · right; right; left; rw [h']; exact hstale.2
+          · exact Or.inr (Or.inr (Or.inl h'))
+          · exact Or.inr (Or.inr (Or.inr h'))
+      · rw [if_neg hstale]
+        have hlt : s.lastPersisted < snap.version := by omega
+        cases ok with
+        | true =>
+          simp only [if_true]
+          refine ⟨h.lp_le, h.taken_le, h.top, h.top_unique, hpsub, ?_, ?_, ?_⟩
+          · intro f hf
+            simp only [Option.some.injEq] at hf
+            subst hf
+            exact ⟨hsnap, hlt, by simp, by simp, by simp⟩
+          · intro _; exact hfile
+          · intro x hx
+            rcases hacc x hx with h' | h' | h' | h'
+            · exact Or.inl h'
+            · right; left; exact ⟨_, rfl, h'.symm⟩
+            · exact Or.inr (Or.inr (Or.inl h'))
+            · exact Or.inr (Or.inr (Or.inr h'))
+        | false =>
+          simp only [Bool.false_eq_true, if_false]
+          refine ⟨h.lp_le, h.taken_le, h.top, h.top_unique, hpsub, ?_, ?_, ?_⟩
+          · intro f hf; simp only [hin] at hf; cases hf
+          · intro _; exact hfile
+          · intro x hx
+            rcases hacc x hx with h' | h' | h' | h'
+            · exact Or.inl h'
+            · right; right; right; rw [h']; simp
+            · exact Or.inr (Or.inr (Or.inl h'))
+            · right; right; right; simp [h']
+
+theorem inv_fail (m0 : Option (List Str)) (s : PState) (f : Inflight) (h : Inv m0 s)
+    (hf : s.inflight = some f) (hst : f.stage ≠ .renamed) : Inv m0 (failInflight s f) := by
+  unfold failInflight
+  refine ⟨h.lp_le, h.taken_le, h.top, h.top_unique, h.pending_sub, ?_, ?_, ?_⟩
+  · intro g hg; simp at hg
+  · intro _
+    exact h.file (by intro g hg; rw [hf] at hg; simp only [Option.some.injEq] at hg; rw [← hg]; exact hst)
+  · intro x hx
+    rcases h.accounted x hx with h' | ⟨g, hg, hgx⟩ | h' | h'
+    · exact Or.inl h'
+    · rw [hf] at hg; simp only [Option.some.injEq] at hg
+      right; right; right
+      simp only [List.mem_cons]; left; rw [← hgx, ← hg]
+    · exact Or.inr (Or.inr (Or.inl h'))
+    · right; right; right; simp only [List.mem_cons]; exact Or.inr h'
+
+theorem inv_update (m0 : Option (List Str)) (s : PState) (f f' : Inflight) (h : Inv m0 s)
+    (hf : s.inflight = some f) (hsnap : f'.snap = f.snap)
+    (hst : f.stage ≠ .renamed) (hst' : f'.stage ≠ .renamed)
+    (hw : f'.written = (render f.snap).take f'.written.length)
+    (hw' : f'.stage ≠ .writing → f'.written = render f.snap) :
+    Inv m0 { s with inflight := some f' } := by
+  obtain ⟨a, b, _, _, _⟩ := h.inflight_ok f hf
+  refine ⟨h.lp_le, h.taken_le, h.top, h.top_unique, h.pending_sub, ?_, ?_, ?_⟩
+  · intro g hg
+    simp only [Option.some.injEq] at hg
+    subst hg
+    rw [hsnap]
+    exact ⟨a, b, hw, hw', fun e => absurd e hst'⟩
+  · intro _
+    exact h.file (by intro g hg; rw [hf] at hg; simp only [Option.some.injEq] at hg; rw [← hg]; exact hst)
+  · intro x hx
+    rcases h.accounted x hx with h' | ⟨g, hg, hgx⟩ | h' | h'
+    · exact Or.inl h'
+    · rw [hf] at hg; simp only [Option.some.injEq] at hg
+      right; left
+      exact ⟨f', rfl, by rw [hsnap, hg]; exact hgx⟩
+    · exact Or.inr (Or.inr (Or.inl h'))
+    · exact Or.inr (Or.inr (Or.inr h'))
+
+theorem inv_write (m0 : Option (List Str)) (s : PState) (ok : Bool) (h : Inv m0 s) :
+    Inv m0 (step s (.write ok)) := by
+  unfold step
+  simp only
+  cases hin : s.inflight with
+  | none => simp only; exact h
+  | some f =>
+    simp only
+    by_cases hc : f.stage = .writing ∧ f.written.length < (render f.snap).length
+    · rw [if_pos hc]
+      have hst : f.stage ≠ .renamed := by rw [hc.1]; decide
+      cases ok with
+      | false => simp only [Bool.false_eq_true, if_false]; exact inv_fail m0 s f h hin hst
+      | true =>
+        simp only [if_true]
+        have := inv_update m0 s f { f with written := (render f.snap).take (f.written.length + 1) } h hin rfl hst
+          (by simp only; exact hst)
+          (by simp only [List.length_take]; rw [Nat.min_eq_left (by omega)])
+          (by simp only; intro hne; exact absurd hc.1 hne)
+        exact this
+    · rw [if_neg hc]; exact h
+
+theorem inv_sync (m0 : Option (List Str)) (s : PState) (ok : Bool) (h : Inv m0 s) :
+    Inv m0 (step s (.sync ok)) := by
+  unfold step
+  simp only
+  cases hin : s.inflight with
+  | none => simp only; exact h
+  | some f =>
+    simp only
+    by_cases hc : f.stage = .writing ∧ f.written.length = (render f.snap).length
+    · rw [if_pos hc]
+      have hst : f.stage ≠ .renamed := by rw [hc.1]; decide
+      obtain ⟨_, _, hpre, _, _⟩ := h.inflight_ok f hin
+      have hfull : f.written = render f.snap := by rw [hpre, hc.2, List.take_length]
+      cases ok with
+      | false => simp only [Bool.false_eq_true, if_false]; exact inv_fail m0 s f h hin hst
+      | true =>
+        simp only [if_true]
+        have := inv_update m0 s f { f with stage := .synced } h hin rfl hst
+          (by simp) (by simp only; exact hpre) (by simp only; intro _; exact hfull)
+        exact this
+    · rw [if_neg hc]; exact h
+
+theorem inv_close (m0 : Option (List Str)) (s : PState) (ok : Bool) (h : Inv m0 s) :
+    Inv m0 (step s (.close ok)) := by
+  unfold step
+  simp only
+  cases hin : s.inflight with
+  | none => simp only; exact h
+  | some f =>
+    simp only
+    by_cases hc : f.stage = .synced
+    · rw [if_pos hc]
+      have hst : f.stage ≠ .renamed := by rw [hc]; decide
+      obtain ⟨_, _, hpre, hfull, _⟩ := h.inflight_ok f hin
+      cases ok with
+      | false => simp only [Bool.false_eq_true, if_false]; exact inv_fail m0 s f h hin hst
+      | true =>
+        simp only [if_true]
+        have := inv_update m0 s f { f with stage := .closed } h hin rfl hst
+          (by simp) (by simp only; exact hpre) (by simp only; intro _; exact hfull (by rw [hc]; decide))
+        exact this
+    · rw [if_neg hc]; exact h
+
+theorem inv_rename (m0 : Option (List Str)) (s : PState) (ok : Bool) (h : Inv m0 s) :
+    Inv m0 (step s (.rename ok)) := by
+  unfold step
+  simp only
+  cases hin : s.inflight with
+  | none => simp only; exact h
+  | some f =>
+    simp only
+    by_cases hc : f.stage = .closed
+    · rw [if_pos hc]
+      have hst : f.stage ≠ .renamed := by rw [hc]; decide
+      obtain ⟨a, b, hpre, hfull, _⟩ := h.inflight_ok f hin
+      have hw : f.written = render f.snap := hfull (by rw [hc]; decide)
+      cases ok with
+      | false => simp only [Bool.false_eq_true, if_false]; exact inv_fail m0 s f h hin hst
+      | true =>
+        simp only [if_true]
+        refine ⟨h.lp_le, h.taken_le, h.top, h.top_unique, h.pending_sub, ?_, ?_, ?_⟩
+        · intro g hg
+          simp only [Option.some.injEq] at hg
+          subst hg
+          exact ⟨a, b, hpre, fun _ => hw, fun _ => by rw [hw]⟩
+        · intro hno
+          exact absurd rfl (hno _ rfl)
+        · intro x hx
+          rcases h.accounted x hx with h' | ⟨g, hg, hgx⟩ | h' | h'
+          · exact Or.inl h'
+          · rw [hin] at hg; simp only [Option.some.injEq] at hg
+            right; left
+            exact ⟨_, rfl, by simp only; rw [hg]; exact hgx⟩
+          · exact Or.inr (Or.inr (Or.inl h'))
+          · exact Or.inr (Or.inr (Or.inr h'))
+    · rw [if_neg hc]; exact h
+
+theorem inv_commit (m0 : Option (List Str)) (s : PState) (h : Inv m0 s) :
+    Inv m0 (step s .commit) := by
+  unfold step
+  simp only
+  cases hin : s.inflight with
+  | none => simp only; exact h
+  | some f =>
+    simp only
+    by_cases hc : f.stage = .renamed
+    · rw [if_pos hc]
+      obtain ⟨a, b, _, _, hmain⟩ := h.inflight_ok f hin
+      have hle := (h.taken_le f.snap a).2
+      refine ⟨hle, h.taken_le, h.top, h.top_unique, h.pending_sub, ?_, ?_, ?_⟩
+      · intro g hg; simp at hg
+      · intro _
+        exact Or.inr ⟨f.snap, a, rfl, hmain hc⟩
+      · intro x hx
+        rcases h.accounted x hx with h' | ⟨g, hg, hgx⟩ | h' | h'
+        · exact Or.inl h'
+        · rw [hin] at hg; simp only [Option.some.injEq] at hg
+          right; right; left
+          simp only; rw [← hgx, hg]; exact Nat.le_refl _
+        · right; right; left; simp only; omega
+        · exact Or.inr (Or.inr (Or.inr h'))
+    · rw [if_neg hc]; exact h
+
+theorem inv_step (m0 : Option (List Str)) (s : PState) (st : Step) (h : Inv m0 s) : Inv m0 (step s st) := by
+  cases st with
+  | mutate op => exact inv_mutate m0 s op h
+  | begin i ok => exact inv_begin m0 s i ok h
+  | write ok => exact inv_write m0 s ok h
+  | sync ok => exact inv_sync m0 s ok h
+  | close ok => exact inv_close m0 s ok h
+  | rename ok => exact inv_rename m0 s ok h
+  | commit => exact inv_commit m0 s h
+
+theorem inv_run (m0 : Option (List Str)) (s : PState) (steps : List Step) (h : Inv m0 s) : Inv m0 (run s steps) := by
+  induction steps generalizing s with
+  | nil => exact h
+  | cons st t ih => exact ih (step s st) (inv_step m0 s st h)
+
 end SdnsVerif.Lemmas.Blocklist
